@@ -42,6 +42,16 @@ class DD10(AA10):
     d: Optional[int]
 
 
+class A010(AA10):
+    """child of vt.aa whose entry point name sorts before the parent's"""
+
+    class Plugin:
+        name = "vt.a0"
+        version = (1, 0, 0)
+
+    e: Optional[int]
+
+
 class XX10(MetadataSchema):
     class Plugin:
         name = "vt.xx"
@@ -88,6 +98,14 @@ class DD11(AA11):
     d: Optional[int]
 
 
+class A011(AA11):
+    class Plugin:
+        name = "vt.a0"
+        version = (1, 1, 0)
+
+    e: Optional[int]
+
+
 class AA20(MetadataSchema):
     class Plugin:
         name = "vt.aa"
@@ -98,7 +116,7 @@ class AA20(MetadataSchema):
 
 
 CLASSES = {
-    "old": [AA10, BB10, CC10, DD10, XX10],
-    "new": [AA11, BB11, CC11, DD11, XX10],
+    "old": [AA10, BB10, CC10, DD10, A010, XX10],
+    "new": [AA11, BB11, CC11, DD11, A011, XX10],
     "v2": [AA20],
 }
